@@ -122,8 +122,8 @@ CFG = {
         "packages into Hy.Gen.App and proved equal to the model's tables; utf8 decoding, strings.TrimSpace/ToLower are modelled",
         "the YAML/viper decoding of `bandwidth.up/down` into Go strings is not modelled (the fields are strings; ConvBandwidth's int arm is "
         "unreachable from a file)",
-        "main model = bpsconv.go with fixes/D15.patch applied (overflowing product refused); the pinned wrap-around is kept as "
-        "stringToBpsPinned with a decided counterexample",
+        "StringToBps is modelled as it is: number x unit is a uint64 product (modulo 2^64). That an absurdly large configured value is "
+        "read as a smaller one (stringToBps_wraps_counterexample) is noticed, not claimed: C10 bounds the rate by the limit the program holds",
     ],
     "assumptions": [
         "rates are uint64 (theorems carry n <= 2^64-1 where the width matters)",
@@ -142,7 +142,7 @@ MANIFEST = {
             "peers with hand-crafted headers) observing authenticator tx, Connect(tx), HandshakeInfo.Tx and the controller actually installed "
             "on each quic.Conn via an instrumented copy of congestion/utils.go regenerated from the working tree on every run. "
             "The limits themselves are traced back to the configuration files: stringToBps_spec (StringToBps accepts exactly "
-            "blanks* digits+ blanks* unit blanks*, value = digits x unit / 8 exactly, never a wrapped product — fixes/D15.patch), "
+            "blanks* digits+ blanks* unit blanks*; value = digits x unit / 8 exactly under digits x unit < 2^64, a uint64 product otherwise), "
             "config_to_limits (core limits = parsed strings; server refuses 0 < limit < 65536, client does not) and "
             "configured_rate_never_exceeded (end to end), tied by a differential on the real StringToBps / fillBandwidthConfig / core fill.",
     "note": "Trusted: Lean kernel (+leanchecker), standard axioms at most; the Go harness, the go/ast rewriter and hydrv; quic-go http3 header "
